@@ -64,6 +64,33 @@ ExplainsOp(c, r) ==
            /\ r.nan = 0
            /\ ChainOK(c.a.chain)
            /\ ConvWithin(r.v, c.a.x, c.a.chain)
+      [] c.op = "l2p_at" ->                 \* Prob::from(LogProb(d)); a.x = image of exp(d) on the 1e9 scale
+           /\ r.nan = 0 /\ r.inf = 0
+           /\ r.v >= c.a.x - (c.a.x \div 200) - 2 /\ r.v <= c.a.x + (c.a.x \div 200) + 2
+      \* ---- closed-form families (10^5 .. 10^6 operands; see ProbAlgebra.tla)
+      [] c.op = "bigsum" ->
+           /\ Clean(r) /\ r.neginf = 0
+           /\ c.a.n = ClassCount(c.a.cl, 1, 0) + 1 /\ c.a.pos \in 1..c.a.n
+           /\ ClassTotal(c.a.cl, 1, 0) <= Unit9
+           /\ Within(r.v, Unit + (ClassTotal(c.a.cl, 1, 0) \div 1000), Len(c.a.cl) + 1)
+      [] c.op = "bigcumsum" ->
+           /\ c.a.n = ClassCount(c.a.cl, 1, 0) + 1 /\ c.a.pos \in 1..c.a.n
+           /\ ClassTotal(c.a.cl, 1, 0) <= Unit9
+           /\ Len(r.vs) = Len(c.a.at)
+           /\ \A i \in 1..Len(c.a.at) :
+                 /\ c.a.at[i] \in 1..c.a.n
+                 /\ Clean(r.vs[i]) /\ r.vs[i].neginf = 0
+                 /\ Within(r.vs[i].v, BigPrefixClosed(c.a.cl, Unit9, c.a.pos, c.a.at[i]) \div 1000, Len(c.a.cl) + 1)
+      [] c.op \in {"bigtrapz", "bigsimpson"} ->
+           /\ Clean(r) /\ r.neginf = 0
+           /\ c.a.n >= 3 /\ c.a.kp \in 0..(c.a.n - 1) /\ c.a.h \in 0..c.a.n
+           /\ r.ncalls = c.a.n
+           /\ LET rule == IF c.op = "bigtrapz" THEN "trapz" ELSE "simpson"
+                  wk   == IF rule = "trapz" THEN TrapzWAt(c.a.n, c.a.kp) ELSE SimpsonWAt(c.a.n, c.a.kp)
+                  fl   == PeakFloorClosed(rule, c.a.n, c.a.kp, c.a.h, c.a.x1, c.a.x2, 0)     \* floor part, 1e-9 units
+                  want == wk * Unit + (fl \div 1000)
+              IN  \* 0.5 % of the largest (weighted) operand of the log-sum + quantisation
+                  r.v >= want - (wk * Half + 4) /\ r.v <= want + (wk * Half + 4)
       [] c.op = "checked" ->
            /\ (r.ok = 1) <=> CheckedAccepts(c.a)
            /\ (r.ok = 1 /\ c.a.kind = "ratio") =>
